@@ -209,14 +209,19 @@ CA(d, aeromu) == LET t(sr, cr) == << BT(T(W,0,0,ROne), T(W,0,0,ROne), RNeg(aerom
                  IN OverPatches(t, d)
 
 (* a panel description pd (stack instead of F) completed with the laminate matrix, its scale and thickness *)
+(* force_orthotropic_laminate: the package zeroes the 16/26 couplings of A, B, D (entries with exactly one index in {3, 6}) *)
+ForceOrtho(F) == Fn([p \in 1..6 |-> Fn([q \in 1..6 |-> IF (p \in {3, 6}) # (q \in {3, 6}) THEN RZero ELSE F[p][q]])])
+IsOrtho(pd) == IF "ortho" \in DOMAIN pd THEN pd.ortho ELSE FALSE
 CompleteDef(pd) ==
     LET lam == ABDE(pd.stack, pd.off)
         sc  == ABDEScale(pd.stack, pd.off)
+        F0 == ABD6(lam)
+        Fs0 == ABD6(sc)
     IN [model |-> pd.model, a |-> pd.a, b |-> pd.b, r |-> pd.r, sina |-> pd.sina, cosa |-> pd.cosa,
         m |-> pd.m, n |-> pd.n, fl |-> pd.fl, y1 |-> pd.y1, y2 |-> pd.y2, mu |-> pd.mu,
         off |-> pd.off, Ncte |-> pd.Ncte,
-        F |-> ABD6(lam), Fs |-> ABD6(sc), h |-> Thickness(pd.stack)]
-
+        F |-> IF IsOrtho(pd) THEN ForceOrtho(F0) ELSE F0, Fs |-> IF IsOrtho(pd) THEN ForceOrtho(Fs0) ELSE Fs0,
+        h |-> Thickness(pd.stack)]
 (* placement inside a larger matrix: size x size with the block at (row0, col0), zeros elsewhere *)
 Place(M, size, row0, col0) ==
     Fn([r \in 1..size |-> Fn([c \in 1..size |->
